@@ -34,6 +34,17 @@ def qr_r_jvp(primals, tangents):
     # Treat 'Q' as constant, which implies
     # R = Q^\top M and we get obvious derivatives
     R_dot = Q.T @ M_dot
+
+    # Correct for the rotation of Q (so that R_dot is upper triangular)
+    # wherever R is invertible; keep the simple rule at zero pivots.
+    if R.shape[0] == R.shape[1]:
+        diag = jnp.diagonal(R)
+        ok = diag != 0.0
+        R_safe = R + jnp.diag(jnp.where(ok, 0.0, 1.0))
+        Y = jax.scipy.linalg.solve_triangular(R_safe.T, R_dot.T, lower=True).T
+        Y = jnp.where(ok[None, :], Y, 0.0)
+        lower = jnp.tril(Y, -1)
+        R_dot = R_dot - (lower - lower.T) @ R
     return R, R_dot
 
 
